@@ -310,6 +310,14 @@ def main():
             continue
         for i in range(1, len(s0), 1 if thorough else 2):
             add("scanner-seed-prefix", ("@@\n@@\n-" + s0[:i] + "\n+y\n").encode(), some_files)
+    # target files with //line directives (token.File.Line is adjusted by them) inside and around what a change rewrites
+    LINE_PATCHES = [b"@@\n@@\n-a()\n-b()\n+c()\n", b"@@\n@@\n x()\n-a()\n", b"@@\nvar v expression\n@@\n-a(v)\n+c(v)\n", b"@@\n@@\n-a()\n+c(\n+  1,\n+)\n"]
+    for nline in (1, 40, 100000, 200000000, 2000000000):
+        for body in ("\tx()\n//line x.go:%d\n\ta()\n\tb()\n\tz()\n", "\tx()\n\ta(\n//line x.go:%d\n\t)\n\tb()\n", "\tx()\n\ta()\n/*line y.go:%d:7*/\tb()\n\tz()\n",
+                     "\tx()\n\ta(q, //line z.go:%d\n\t)\n\tb()\n"):
+            src = ("package p\n\nfunc f() {\n" + body % nline + "}\n").encode()
+            for lp in LINE_PATCHES:
+                add("line-directive", lp, {"a.go": src})
     ill = []
     for k in range(len(ILL_TYPED) * (5 if thorough else 2)):
         p, f = ill_typed_case(rng, k)
